@@ -490,9 +490,8 @@ Conversion<Unit::SpecificHeatCapacity, Unit::SpecificHeatCapacity::InchPoundPerS
 }
 
 template <typename NumericType>
-inline const std::map<Unit::SpecificHeatCapacity,
-                      std::function<void(NumericType* values, const std::size_t size)>>
-    MapOfConversionsFromStandard<Unit::SpecificHeatCapacity, NumericType>{
+inline constexpr auto MapOfConversionsFromStandard<Unit::SpecificHeatCapacity, NumericType>{
+  MakeConversionTable<Unit::SpecificHeatCapacity, NumericType>({
       {Unit::SpecificHeatCapacity::JoulePerKilogramPerKelvin,
        Conversions<Unit::SpecificHeatCapacity,
        Unit::SpecificHeatCapacity::JoulePerKilogramPerKelvin>::
@@ -509,12 +508,12 @@ inline const std::map<Unit::SpecificHeatCapacity,
        Conversions<Unit::SpecificHeatCapacity,
        Unit::SpecificHeatCapacity::InchPoundPerSlinchPerRankine>::
            FromStandard<NumericType>},
+})
 };
 
 template <typename NumericType>
-inline const std::map<Unit::SpecificHeatCapacity,
-                      std::function<void(NumericType* const values, const std::size_t size)>>
-    MapOfConversionsToStandard<Unit::SpecificHeatCapacity, NumericType>{
+inline constexpr auto MapOfConversionsToStandard<Unit::SpecificHeatCapacity, NumericType>{
+  MakeConversionTable<Unit::SpecificHeatCapacity, NumericType>({
       {Unit::SpecificHeatCapacity::JoulePerKilogramPerKelvin,
        Conversions<Unit::SpecificHeatCapacity,
        Unit::SpecificHeatCapacity::JoulePerKilogramPerKelvin>::ToStandard<NumericType>},
@@ -529,6 +528,7 @@ inline const std::map<Unit::SpecificHeatCapacity,
        Conversions<Unit::SpecificHeatCapacity,
        Unit::SpecificHeatCapacity::InchPoundPerSlinchPerRankine>::
            ToStandard<NumericType>                                                    },
+})
 };
 
 }  // namespace Internal
